@@ -19,7 +19,7 @@ theorem copy_fields_exist : copyUnknown = [] := by decide
 
 /-! ## non-vacuity: the tables are populated, and the checks do detect defects -/
 
-example : astNodes.length = 54 ∧ copyCases.length = 54 := by decide
+example : 50 ≤ astNodes.length ∧ astNodes.length ≤ copyCases.length := by decide
 
 example : (copyCases.find? (fun c => c.1 == "TypeSpec")).map (·.2.contains "TypeParams") = some true := by decide
 
